@@ -332,6 +332,8 @@ type PathSim struct {
 	OnInstr func(fn *ssa.Function, st *pstate, ins ssa.Instruction)
 	// trackGlobals: stores to package-level variables are interpreted (package initialisers only)
 	trackGlobals bool
+	// IfaceAssertIdentity: x.(I) for an interface type I denotes x itself (facts about x's dynamic type carry over)
+	IfaceAssertIdentity bool
 	// NoTables: do not resolve initialise-once package-level tables (loads stay symbolic)
 	NoTables bool
 }
@@ -542,6 +544,11 @@ func (ps *PathSim) exec(fn *ssa.Function, st *pstate, ins ssa.Instruction) {
 		} else {
 			st.env[x] = &Sym{K: sTAValue, A: a, T: x.AssertedType, V: x}
 			st.events = append(st.events, Event{In: fn, Args: []*Sym{a}, Res: st.env[x]})
+			if _, toIface := x.AssertedType.Underlying().(*types.Interface); toIface && ps.IfaceAssertIdentity {
+				// an assertion to an interface type changes the static type only: the value (and what is known of its
+				// dynamic type) is the operand's
+				st.env[x] = a
+			}
 		}
 	case *ssa.Extract:
 		t := ps.sym(st, x.Tuple)
